@@ -464,8 +464,39 @@ def rule_persist(ctx: Ctx) -> None:  # noqa: C901
     fa = P.func("pipefunc.map._storage_array._file.FileArray.to_array")
     none_masks = [c for c in ast.walk(fa.node) if isinstance(c, ast.Compare) and any(isinstance(o, (ast.Is, ast.IsNot)) for o in c.ops) and any(isinstance(x, ast.Constant) and x.value is None for x in c.comparators)
                   and "splat_internal" not in norm(c)]
-    ctx.tri("5-persist", fa, none_masks[0] if none_masks else fa.node, "mask_linear()" in norm(fa.node) and not none_masks, bool(none_masks), "FileArray.to_array masks by file presence",
-            "FileArray.to_array derives the mask from the loaded values: a stored None reloads as missing", key="mask-from-files")
+    # `x is None` is only a test of the loaded VALUE when x can hold what was unpickled; `x = np.asarray(load(f)) if f.is_file() else None`
+    # is None exactly when the file is absent (presence in disguise)
+    LOADERS = ("load", "loads", "_load_all", "maybe_load")
+    WRAPPERS = ("np.asarray", "np.array", "numpy.asarray", "numpy.array")
+
+    def holds_loaded_value(name: str, depth: int = 3) -> bool | None:
+        vals = [a.value for a in ast.walk(fa.node) if isinstance(a, ast.Assign) and any(isinstance(t, ast.Name) and t.id == name for t in a.targets)]
+        its = [it for it in iterations(fa.node) if any(isinstance(x, ast.Name) and x.id == name for x in ast.walk(it["target"]))]
+        if its:
+            src = its[0]["iter"]
+            if isinstance(src, ast.Name) and depth:
+                return holds_loaded_value(src.id, depth - 1)
+            vals = [src]
+        if not vals:
+            return None
+        verdict: bool | None = False
+        for v in vals:
+            arms = [v.body, v.orelse] if isinstance(v, ast.IfExp) else [v]
+            for arm in arms:
+                if isinstance(arm, ast.Constant) and arm.value is None:
+                    continue
+                if isinstance(arm, ast.Call) and dotted(arm.func) in WRAPPERS:
+                    continue  # an array object, never None
+                if isinstance(arm, ast.Call) and dotted(arm.func).rsplit(".", 1)[-1] in LOADERS:
+                    return True
+                if any(isinstance(c, ast.Call) and dotted(c.func).rsplit(".", 1)[-1] in LOADERS for c in ast.walk(arm)):
+                    return True
+                verdict = None
+        return verdict
+
+    verdicts = [holds_loaded_value(c.left.id) if isinstance(c.left, ast.Name) else None for c in none_masks]
+    ctx.tri("5-persist", fa, none_masks[0] if none_masks else fa.node, "mask_linear()" in norm(fa.node) and all(v is False for v in verdicts), any(v is True for v in verdicts), "FileArray.to_array masks by file presence",
+            "FileArray.to_array derives the mask from the loaded values: a stored None reloads as missing", "an `is None` test in to_array: whether its operand can hold an unpickled value is not decided", key="mask-from-files")
 
 
 def rule_byte_codec(ctx: Ctx) -> None:
